@@ -153,8 +153,13 @@ def rule_generation(ctx: Ctx):
     cdef = env.get(cv)
     okcat = isinstance(cdef, ast.Call) and norm(cdef.func) in ("np.random.choice", "numpy.random.choice") and len(cdef.args) == 1 and \
         norm(cdef.args[0]) == f"{sn}._categories" and kwarg(cdef, "p") is not None and norm(kwarg(cdef, "p")) == f"{sn}._categories_weight"
-    ctx.check(okcat, "R-C15-2", f, cdef, "category ~ categorical law over the sampler's categories with p = their weights",
-              bad_detail=f"category draw is `{norm(cdef) if cdef is not None else None}`: not np.random.choice(self._categories, p=self._categories_weight)", key="category-draw")
+    if not (isinstance(cdef, ast.Call) and norm(cdef.func) in ("np.random.choice", "numpy.random.choice")):
+        # another way of drawing from a categorical law (inverse cdf, multinomial, ...): a different design, not a wrong slot
+        ctx.undecided("R-C15-2", f, cdef, f"the category is not drawn with np.random.choice (`{norm(cdef) if cdef is not None else 'no recognisable draw'}`): "
+                      f"whether that draw follows the categorical law is not decided here (not a verdict)", key="category-draw")
+    else:
+        ctx.check(okcat, "R-C15-2", f, cdef, "category ~ categorical law over the sampler's categories with p = their weights",
+                  bad_detail=f"category draw is `{norm(cdef)}`: not np.random.choice(self._categories, p=self._categories_weight)", key="category-draw")
 
 
 def rule_estimators(ctx: Ctx):
